@@ -229,7 +229,48 @@ def gather_inputs(rng, tier):
         items.append(dict(id="special:%d" % i, sql=s, src="special"))
     for i, s in enumerate(EXTRA):
         items.append(dict(id="extra:%d" % i, sql=s, src="special"))
+    # 5. comments that share a line with code, in front of and between clauses (the comment-preserving formatters must
+    #    stay stable under a second pass whatever number of comments a statement carries)
+    base = [it["sql"] for it in items if it["src"] in ("sqlgen", "model-stmt") and len(it["sql"]) < 200 and "--" not in it["sql"] and "/*" not in it["sql"]]
+    rng.shuffle(base)
+    for i, s in enumerate(base[:60 if tier == "quick" else 600]):
+        items.append(dict(id="cmt:%d" % i, sql=comment_variant(rng, s), src="commented"))
+    for i, s in enumerate(COMMENTED):
+        items.append(dict(id="cmtx:%d" % i, sql=s, src="commented"))
     return items
+
+
+COMMENTED = [
+    "SELECT id, -- surrogate key\n name -- display name\nFROM users",
+    "SELECT a -- one\nFROM t -- two\nWHERE a = 1 -- three",
+    "-- head\nSELECT a FROM t -- tail",
+    "SELECT a /* b1 */ FROM t /* b2 */ WHERE a = 1 /* b3 */",
+    "SELECT a, /* b1 */ b -- l1\nFROM t",
+    "/* head */ SELECT a FROM t; -- after first\nSELECT b FROM u -- after second",
+    "SELECT a FROM t\n-- own line 1\n-- own line 2\nWHERE a = 1",
+]
+
+
+def comment_variant(rng, sql):
+    """the statement with line / block comments placed at clause boundaries (each line comment ends its line)"""
+    import re
+    n = [0]
+    def deco(m):
+        n[0] += 1
+        k = rng.randrange(4)
+        if k == 0:
+            return " -- c%d\n%s " % (n[0], m.group(1))
+        if k == 1:
+            return " /* c%d */ %s " % (n[0], m.group(1))
+        if k == 2:
+            return " /* c%d */ -- d%d\n%s " % (n[0], n[0], m.group(1))
+        return " %s " % m.group(1)
+    out = re.sub(r" (FROM|WHERE|GROUP BY|ORDER BY|HAVING|LIMIT|JOIN|SET|VALUES) ", deco, sql)
+    if rng.random() < 0.5:
+        out += " -- end"
+    if rng.random() < 0.3:
+        out = "-- head\n" + out
+    return out
 
 
 # statements aimed at the serialiser mechanisms the property names
